@@ -29,6 +29,7 @@ STRATS = {"all": 0, "comp": 1, "bt": 2}
 MAX_GLUED = 120            # per (variant, strategy): beyond this only the oracle sees the case
 MAX_RAW = 400
 MAX_HOST = 70
+HUGE_RAW = 1500          # beyond this many raw matches / glued graphs a case is dropped (memory)
 MAX_ISO = 40             # glued graphs per run compared up to isomorphism by the oracle (strings are always compared)
 
 RULE = ("(template, substrate, direction, hydrogen mode) as in C03 (centre / full ITS of corpus reactions on their own and on foreign "
@@ -276,6 +277,8 @@ def prepare(case):
             cost["raw"] = max(cost["raw"], len(rec.raw))
             cost["glued"] = max(cost["glued"], sum(len(c[3]) if c[1] is None else len(c[1]) for c in rec.glue_calls))
             cost["host"] = max(cost["host"], rec.host.number_of_nodes())
+            if cost["raw"] > HUGE_RAW or cost["glued"] > HUGE_RAW:
+                break
             np_, nh_ = rec.tpl.number_of_nodes(), rec.host.number_of_nodes()
             # rough seconds of vm_compute for the three strategies of this writing (measured: 38-node pattern in a 38-node host
             # 1.3 s per run, 4-node pattern in a 56-node host 0.3 s per run)
@@ -287,6 +290,11 @@ def prepare(case):
             cost["est"] += 1.2 * len(rec.raw) * nh_ / 550.0
     except Exception as e:
         case["pre"] = {"error": type(e).__name__ + ": " + str(e)[:120]}
+        return case
+    if cost["raw"] > HUGE_RAW or cost["glued"] > HUGE_RAW:
+        # thousands of matches: the recorded runs of such a case (every glued graph of every writing and strategy, deep-copied by
+        # the recording wrappers) take gigabytes; the case is dropped from the population (counted as outside the domain)
+        case["pre"] = {"outside": "more than %d matches / glued graphs (%d / %d)" % (HUGE_RAW, cost["raw"], cost["glued"])}
         return case
     case["pre"] = {"vs": vs, "cost": cost}
     try:
@@ -561,9 +569,16 @@ def _sequence_failures(case, obs, fail):
 
 
 def oracle(case):
+    try:
+        return _oracle(case)
+    finally:
+        _MEMO["case"], _MEMO["recs"] = None, {}      # the recorded runs of this case are not needed any more
+
+
+def _oracle(case):
     pre = case.get("pre")
-    if pre is not None and "error" in pre:
-        return []          # construction errors (unparsable input) are not results
+    if pre is not None and ("error" in pre or "outside" in pre):
+        return []          # construction errors (unparsable input) are not results; dropped cases are not run
     base_key = case.get("key")
     fails = []
 
